@@ -102,6 +102,11 @@ func (s *socket) GetOption(option string) (interface{}, error) {
 }
 
 func (s *socket) AddPipe(pp protocol.Pipe) error {
+	s.Lock()
+	defer s.Unlock()
+	if s.closed {
+		return protocol.ErrClosed
+	}
 	p := &pipe{
 		p:      pp,
 		s:      s,
@@ -109,11 +114,6 @@ func (s *socket) AddPipe(pp protocol.Pipe) error {
 		sendq:  make(chan *protocol.Message, s.sendQLen),
 	}
 	pp.SetPrivate(p)
-	s.Lock()
-	defer s.Unlock()
-	if s.closed {
-		return protocol.ErrClosed
-	}
 	s.pipes[pp.ID()] = p
 	go p.sender()
 	go p.receiver()
